@@ -174,7 +174,7 @@ def main():
     jobs = int(os.environ.get('VERIF_JOBS', str(os.cpu_count() or 4)))
     t0 = time.time()
     modname = 'vlib.harness.' + pid.lower()
-    evidence_path = os.path.join(ROOT, 'evidence', pid + '.json')
+    evidence_path = os.path.join(os.environ.get('VERIF_EVIDENCE_DIR') or os.path.join(ROOT, 'evidence'), pid + '.json')
     os.makedirs(os.path.dirname(evidence_path), exist_ok=True)
 
     def harness_error(msg):
@@ -201,7 +201,7 @@ def main():
     rnd.shuffle(order)
     order.sort(key=lambda o: -o['timeout'])
     # model self-test (native, cheap) in a subprocess with the venv interpreter
-    st = subprocess.run([PY, '-c', 'import sys; sys.path.insert(0, %r); from vlib import plugin; n, e = plugin.selftest(); '
+    st = subprocess.run([PY, '-c', 'import sys; sys.path.insert(0, %r); from vlib import plugin; n, e = plugin.selftest(); n2, e2 = plugin.selftest_symbolic(); n += n2; e += e2; '
                          'print(n, len(e)); print(e[:3])' % ROOT], capture_output=True, text=True, cwd=ROOT)
     if st.returncode != 0 or st.stdout.split()[1:2] != ['0']:
         harness_error('model self-test failed: %s %s' % (st.stdout[-300:], st.stderr[-300:]))
@@ -226,7 +226,7 @@ def main():
     results = run_pool(twins + order, jobs)
     if os.environ.get('VERIF_DUMP'):
         os.makedirs(os.path.join(ROOT, '.scratch'), exist_ok=True)
-        json.dump(results, open(os.path.join(ROOT, '.scratch', pid + '-results.json'), 'w'))
+        json.dump(results, open(os.path.join(ROOT, '.scratch', pid + ('-seed' if os.environ.get('VERIF_REPO') else '') + '-results.json'), 'w'))
 
     known = load_known(pid)
     cov = {'evaluations': 0, 'distinct_nontrivial': 0, 'obligations': len(obs), 'discharged': 0,
@@ -241,7 +241,8 @@ def main():
     vacuous_twins = []
     twin_errs = []
     main_status = {}
-    os.makedirs(os.path.join(ROOT, 'replays', pid), exist_ok=True)
+    replay_root = os.environ.get('VERIF_REPLAY_DIR') or os.path.join(ROOT, 'replays')
+    os.makedirs(os.path.join(replay_root, pid), exist_ok=True)
     for ob, res in results:
         status = res.get('status')
         cov['solver_queries'] += res.get('solver_queries', 0) or 0
@@ -297,7 +298,7 @@ def main():
             reason = nat.get('reason') or ('exception: %s' % nat.get('exception'))
             digest = hashlib.sha1(json.dumps([ob['name'], args], sort_keys=True).encode()).hexdigest()[:10]
             kf = match_known(known, ob['name'], reason)
-            rp = os.path.join(ROOT, 'replays', pid, ('known-' if kf else '') + re.sub(r'[^A-Za-z0-9_.-]', '_', ob['name']) + '-' + digest + '.json')
+            rp = os.path.join(replay_root, pid, ('known-' if kf else '') + re.sub(r'[^A-Za-z0-9_.-]', '_', ob['name']) + '-' + digest + '.json')
             json.dump({'property': pid, 'obligation': ob['name'], 'module': ob['module'], 'fn': ob.get('replay_fn', ob['fn']), 'cfg': ob['cfg'],
                        'args': args, 'observed': nat, 'crosshair_message': msgs[0]['message'] if msgs else None,
                        'replay_cmd': './vcheck replay ' + os.path.relpath(rp, ROOT)}, open(rp, 'w'), indent=1)
